@@ -35,31 +35,32 @@
 //@ fn SharedHistory::update
 //@ spec
     ensures
-        exists|o: PayloadHistory, n: PayloadHistory| #[trigger] self.released(o, n) && ({
-            let oc = o.current;
-            let nc = n.current;
-            // C15 (G): the new data set -- the one produced from this run's report -- is installed ...
-            &&& nc is Some && nc->Some_0.content() == report.snapshot_content(exceptions)
-            // C15 (I): ... together with the serial and change set that describe it, in this one
-            // write section: every ghost history c of the old content, extended at the (new) serial
-            // by the new data set, is a ghost history of the new content
-            &&& forall|c: spec_fn(u32) -> Content| #[trigger] o.inv(c) ==> n.inv(upd(c, n.cur().0, nc->Some_0.content()))
-            // C14: the serial advances by exactly one when the data changed, with the change set in front ...
-            &&& (oc is Some && oc->Some_0.content() != nc->Some_0.content()) ==> (
-                    n.cur().0 == wadd(o.cur().0, 1)
-                    && n.deltas@.len() >= 1 && n.deltas@[0].is_diff(oc->Some_0.content(), nc->Some_0.content()))
-            // C14: ... and stays unchanged otherwise (first data set: serial 0 by the invariant)
-            &&& (oc is None || oc->Some_0.content() == nc->Some_0.content()) ==> n.deltas@ == o.deltas@
-            // C14: the return value (must notify) says exactly whether a new version was installed
-            &&& res == (oc is None || oc->Some_0.content() != nc->Some_0.content())
-            // frame
-            &&& n.session == o.session && n.keep == o.keep && n.refresh == o.refresh && n.min_refresh == o.min_refresh
-            &&& n.last_update_start == o.last_update_start && n.last_update_done == o.last_update_done
-            &&& n.last_update_duration == o.last_update_duration && n.next_update_start == o.next_update_start
-            // C16: a section that changes the served version must also advance `created` past the
-            // second of every Last-Modified issued before (see guarantee16)
-            &&& guarantee16(o, n)
+        // C15 (G): the new data set -- the one produced from this run's report -- is installed ...
+        exists|o: PayloadHistory, n: PayloadHistory| #[trigger] self.released(o, n)
+            && n.current is Some && n.current->Some_0.content() == report.snapshot_content(exceptions),
+        // C15 (I): ... together with the serial and change set that describe it, in this one write
+        // section: every ghost history c of the old content, extended at the (new) serial by the
+        // new data set, is a ghost history of the new content
+        exists|o: PayloadHistory, n: PayloadHistory| #[trigger] self.released(o, n) && n.current is Some
+            && forall|c: spec_fn(u32) -> Content| #[trigger] o.inv(c) ==> n.inv(upd(c, n.cur().0, n.current->Some_0.content())),
+        // C14: the serial advances by exactly one when the data changed, with the change set in
+        // front, and stays unchanged otherwise (first data set: serial 0 by the invariant); the
+        // return value (must notify) says exactly whether a new version was installed
+        exists|o: PayloadHistory, n: PayloadHistory| #[trigger] self.released(o, n) && n.current is Some && ({
+            let changed = o.current is Some && o.current->Some_0.content() != n.current->Some_0.content();
+            &&& changed ==> (n.cur().0 == wadd(o.cur().0, 1) && n.deltas@.len() >= 1
+                    && n.deltas@[0].is_diff(o.current->Some_0.content(), n.current->Some_0.content()))
+            &&& !changed ==> n.deltas@ == o.deltas@
+            &&& res == (o.current is None || changed)
         }),
+        // C15 frame: nothing else but the metrics changes
+        exists|o: PayloadHistory, n: PayloadHistory| #[trigger] self.released(o, n)
+            && n.session == o.session && n.keep == o.keep && n.refresh == o.refresh && n.min_refresh == o.min_refresh
+            && n.last_update_start == o.last_update_start && n.last_update_done == o.last_update_done
+            && n.last_update_duration == o.last_update_duration && n.next_update_start == o.next_update_start,
+        // C16: a section that changes the served version must also advance `created` past the
+        // second of every Last-Modified issued before (see guarantee16)
+        exists|o: PayloadHistory, n: PayloadHistory| #[trigger] self.released(o, n) && guarantee16(o, n),
 //@ closure 1
 |current: &Arc<PayloadSnapshot>| -> (r: Option<PayloadDelta>)
     ensures
